@@ -1,5 +1,327 @@
-//! C14 — not built yet.
-#![allow(unused)]
+//! C14 — polynomial regression: case generation for the Coq correspondence and the failure-search oracle.
+//!
+//! The inner linear solve (`invert_matrix`) is not modelled on the Coq side: for every `fit` the harness recomputes the
+//! argument the implementation passes to it with the crate's own public `vandermonde` and `xtx`, calls the crate's public
+//! `invert_matrix` on it and records (argument bits, result bits | panic) in the case (`Call arg res` / `NoCall`).
 use crate::util::*;
-pub fn gen(_tier: &str, _seed: u64, _outdir: &str) { eprintln!("C14: gen not implemented"); std::process::exit(3); }
-pub fn oracle(_tier: &str, _seed: u64) -> (u64, Vec<Finding>) { eprintln!("C14: oracle not implemented"); std::process::exit(3); }
+use compute::linalg::{invert_matrix, vandermonde, xtx};
+use compute::predict::PolynomialRegressor;
+
+// ---------------------------------------------------------------------------------------------
+// input families
+fn uniform_x(r: &mut Rng, n: usize) -> Vec<f64> { (0..n).map(|_| r.uniform(-2.0, 2.0)).collect() }
+fn clustered_x(r: &mut Rng, n: usize, centres: usize) -> Vec<f64> {
+    let cs: Vec<f64> = (0..centres.max(1)).map(|_| r.uniform(-1.9, 1.9)).collect();
+    let w = *r.pick(&[0.1, 0.03, 0.01]);
+    (0..n).map(|i| (cs[i % cs.len()] + w * (r.unit() - 0.5)).clamp(-2.0, 2.0)).collect()
+}
+fn chebyshev_x(n: usize) -> Vec<f64> {
+    (0..n).map(|i| 2.0 * ((2 * i + 1) as f64 * std::f64::consts::PI / (2 * n) as f64).cos()).collect()
+}
+/// multiples of 1/4 in [-2, 2] (17 distinct values; powers up to 6 and their sums are exact in binary64)
+fn quarter_x(r: &mut Rng, n: usize) -> Vec<f64> { (0..n).map(|_| r.range(-8, 8) as f64 / 4.0).collect() }
+fn integer_x(r: &mut Rng, n: usize) -> Vec<f64> { (0..n).map(|_| r.range(-2, 2) as f64).collect() }
+fn abscissae(r: &mut Rng, fam: usize, n: usize, k: usize) -> (Vec<f64>, &'static str) {
+    match fam % 5 {
+        0 => (uniform_x(r, n), "uniform"),
+        1 => { let c = k + 1 + r.below(3) as usize; (clustered_x(r, n, c), "clustered") }
+        2 => (chebyshev_x(n), "chebyshev"),
+        3 => (quarter_x(r, n), "quarter-integer"),
+        _ => (integer_x(r, n), "integer"),
+    }
+}
+fn poly_at(c: &[f64], x: f64) -> f64 { let mut s = 0.0; let mut p = 1.0; for ci in c { s += ci * p; p *= x; } s }
+fn responses(r: &mut Rng, x: &[f64], k: usize, integer: bool) -> (Vec<f64>, Vec<f64>, f64) {
+    let c0: Vec<f64> = (0..k).map(|_| if integer { r.small_int(5) } else { r.uniform(-3.0, 3.0) }).collect();
+    let scale = if integer { 0.0 } else { *r.pick(&[0.0, 1e-9, 1e-3, 0.1, 1.0, 10.0, 1e4]) };
+    let y = x.iter().map(|&v| poly_at(&c0, v) + if scale == 0.0 { 0.0 } else { scale * r.normal() }).collect();
+    (y, c0, scale)
+}
+const SPECIALS: [f64; 12] = [0.0, -0.0, f64::INFINITY, f64::NEG_INFINITY, f64::NAN, 5e-324, -5e-324, 2.2250738585072014e-308, 1.0, -1.0, 1e300, -1e-300];
+
+// ---------------------------------------------------------------------------------------------
+// the record of the inner solve
+fn inv_record(k: usize, x: &[f64], y: &[f64]) -> Tm {
+    if x.len() != y.len() { return Tm::Raw("NoCall".into()); }
+    let g = catch(|| { let xv = vandermonde(x, k); xtx(&xv, x.len()) });
+    match g {
+        Err(_) => Tm::Raw("NoCall".into()),
+        Ok(g) => { let res = catch(|| invert_matrix(&g)); app("Call", vec![fl(&g), outcome_list(&res)]) }
+    }
+}
+fn regressor(k: usize) -> PolynomialRegressor {
+    if k == 0 { let mut p = PolynomialRegressor::new(0); p.coef = vec![]; p } else { PolynomialRegressor::new(k - 1) }
+}
+fn push_fit(cs: &mut Cases, k: usize, x: &[f64], y: &[f64], tag: &str) {
+    let res = catch(|| { let mut p = regressor(k); p.fit(x, y); p.coef.clone() });
+    let nonconst = x.iter().any(|v| v.to_bits() != x[0].to_bits()) && y.iter().any(|v| v.to_bits() != y[0].to_bits());
+    let t = format!("{}/{}", tag, if res.is_ok() { "value" } else { "panic" });
+    cs.push(app("CFit", vec![Tm::Nat(k as u64), fl(x), fl(y), inv_record(k, x, y), outcome_list(&res)]), &t, x.len() >= 3 && nonconst);
+}
+
+pub fn gen(tier: &str, seed: u64, outdir: &str) {
+    let mut r = Rng::new(seed);
+    let mut cs = Cases::new("C14");
+    let thorough = tier == "thorough";
+    // 1. vandermonde: every (len, n) in a small box, special values, exponents up to 40
+    for len in 0..=4 { for n in 0..=8 {
+        let x: Vec<f64> = (0..len).map(|_| if r.coin(0.3) { *r.pick(&SPECIALS) } else { r.uniform(-2.0, 2.0) }).collect();
+        let res = catch(|| vandermonde(&x, n));
+        cs.push(app("CVander", vec![fl(&x), Tm::Nat(n as u64), outcome_list(&res)]), "vandermonde", len >= 1 && n >= 3);
+    }}
+    for _ in 0..(if thorough { 200 } else { 30 }) {
+        let len = 1 + r.below(6) as usize; let n = r.below(41) as usize;
+        let x: Vec<f64> = (0..len).map(|_| if r.coin(0.15) { *r.pick(&SPECIALS) } else { r.uniform(-2.0, 2.0) }).collect();
+        let res = catch(|| vandermonde(&x, n));
+        cs.push(app("CVander", vec![fl(&x), Tm::Nat(n as u64), outcome_list(&res)]), "vandermonde/high-power", n >= 3);
+    }
+    // 2. predict: every coefficient length 0..=9, special values among coefficients and points
+    for it in 0..(if thorough { 4000 } else { 400 }) {
+        let k = it % 10; let m = r.below(7) as usize;
+        let special = it % 4 == 0;
+        let coef: Vec<f64> = (0..k).map(|_| if special && r.coin(0.3) { *r.pick(&SPECIALS) } else if r.coin(0.3) { r.small_int(6) } else { r.uniform(-3.0, 3.0) }).collect();
+        let x: Vec<f64> = (0..m).map(|_| if special && r.coin(0.3) { *r.pick(&SPECIALS) } else { r.uniform(-2.0, 2.0) }).collect();
+        let res = catch(|| { let mut p = PolynomialRegressor::new(0); p.coef = coef.clone(); p.predict(&x) });
+        cs.push(app("CPredict", vec![fl(&coef), fl(&x), outcome_list(&res)]), if special { "predict/special" } else { "predict" }, k >= 2 && m >= 1);
+    }
+    // 3. fit: degrees 0..=6 x 5 abscissa families x n = k .. k+16 (every residue of n), then random n
+    for deg in 0..=6usize { let k = deg + 1; for fam in 0..5 {
+        let top = if thorough { 24 } else { 9 };
+        for dn in 0..top {
+            let n = k + dn;
+            let (x, fname) = abscissae(&mut r, fam, n, k);
+            let ic = r.coin(0.5); let (y, _, _) = responses(&mut r, &x, k, fam >= 3 && ic);
+            push_fit(&mut cs, k, &x, &y, &format!("fit/{}", fname));
+        }
+    }}
+    for _ in 0..(if thorough { 4000 } else { 300 }) {
+        let k = 1 + r.below(7) as usize; let n = k + r.below(if thorough { 300 } else { 120 }) as usize;
+        let fam = r.below(5) as usize;
+        let (x, fname) = abscissae(&mut r, fam, n, k);
+        let ic = r.coin(0.5); let (y, _, _) = responses(&mut r, &x, k, fam >= 3 && ic);
+        push_fit(&mut cs, k, &x, &y, &format!("fit/{}", fname));
+    }
+    let bigs: &[usize] = if thorough { &[500, 1000, 1500, 2000, 2000, 2000] } else { &[700, 2000] };
+    for &n in bigs {
+        let k = 1 + r.below(7) as usize; let fam = r.below(3) as usize;
+        let (x, _) = abscissae(&mut r, fam, n, k);
+        let (y, _, _) = responses(&mut r, &x, k, false);
+        push_fit(&mut cs, k, &x, &y, "fit/large");
+    }
+    // 4. fit outside the property's quantifier: fewer points than coefficients, repeated abscissae, constant data,
+    //    special values, k = 0 (coef emptied through the public field), length mismatch, no data
+    for it in 0..(if thorough { 3000 } else { 300 }) {
+        let k = r.below(6) as usize;
+        let n = r.below(8) as usize;
+        let m = if it % 3 == 0 { r.below(8) as usize } else { n };
+        let x: Vec<f64> = match it % 5 { 0 => integer_x(&mut r, n), 1 => vec![r.uniform(-2.0, 2.0); n], 2 => (0..n).map(|_| if r.coin(0.25) { *r.pick(&SPECIALS) } else { r.uniform(-2.0, 2.0) }).collect(), _ => uniform_x(&mut r, n) };
+        let y: Vec<f64> = (0..m).map(|_| if it % 5 == 2 && r.coin(0.2) { *r.pick(&SPECIALS) } else { r.uniform(-5.0, 5.0) }).collect();
+        push_fit(&mut cs, k, &x, &y, if n != m { "fit-malformed/length-mismatch" } else if k == 0 || n == 0 { "fit-malformed/empty" } else if n < k { "fit-degenerate/underdetermined" } else { "fit-degenerate/other" });
+    }
+    // 5. programs: new(deg), then fits / predicts / assignments to the public coef field
+    for _ in 0..(if thorough { 3000 } else { 300 }) {
+        let deg = r.below(5) as usize;
+        let nops = 1 + r.below(6) as usize;
+        let mut ops: Vec<(u8, Vec<f64>, Vec<f64>)> = vec![];
+        for _ in 0..nops {
+            match r.below(10) {
+                0..=3 => { let n = 1 + r.below(12) as usize; let x = if r.coin(0.5) { uniform_x(&mut r, n) } else { quarter_x(&mut r, n) };
+                           let m = if r.coin(0.06) { n + 1 } else { n }; let y = (0..m).map(|_| r.uniform(-5.0, 5.0)).collect(); ops.push((0, x, y)); }
+                4..=7 => { let m = r.below(5) as usize; ops.push((1, uniform_x(&mut r, m), vec![])); }
+                _ => { let l = r.below(6) as usize; ops.push((2, (0..l).map(|_| r.small_int(4)).collect(), vec![])); }
+            }
+        }
+        // run the implementation; record each fit's inner solve with the coefficient count current at that point
+        let mut recs: Vec<Tm> = vec![];
+        { // dry pass for the records (coef length evolves only through assignments)
+            let mut k = deg + 1;
+            for (kind, a, b) in &ops { match kind { 0 => recs.push(inv_record(k, a, b)), 2 => { k = a.len(); recs.push(Tm::Raw("NoCall".into())) } _ => recs.push(Tm::Raw("NoCall".into())) } }
+        }
+        let res = catch(|| {
+            let mut p = PolynomialRegressor::new(deg); let mut out: Vec<f64> = vec![];
+            for (kind, a, b) in &ops { match kind { 0 => { p.fit(a, b); out.extend_from_slice(&p.coef); } 1 => out.extend(p.predict(a)), _ => { p.coef = a.clone(); } } }
+            out
+        });
+        let terms: Vec<Tm> = ops.iter().zip(recs).map(|((kind, a, b), rc)| match kind { 0 => app("KFit", vec![fl(a), fl(b), rc]), 1 => app("KPredict", vec![fl(a)]), _ => app("KSet", vec![fl(a)]) }).collect();
+        let nfit = ops.iter().filter(|o| o.0 == 0).count();
+        cs.push(app("CSeq", vec![Tm::Nat(deg as u64), Tm::L(terms), outcome_list(&res)]), if res.is_ok() { "program/value" } else { "program/panic" }, nops >= 2 && nfit >= 1);
+    }
+    cs.write(outdir, 60,
+             "vandermonde over a box of (length, order) with special values and orders to 40; predict for every coefficient length 0..9 with special values; fit for degrees 0..6 x {uniform, clustered, Chebyshev, quarter-integer, integer} abscissae in [-2,2] x every n from degree+1 upward (all residues), random n to 120 (quick) / 300 (thorough), n to 2000, responses = polynomial + noise of scale 0..1e4 and exact-integer cases; a degenerate/malformed stream (n < k, repeated abscissae, special values, k = 0, length mismatch, empty data); programs new(deg) + fits/predicts/coef assignments. Each fit case carries the recorded call of the crate's invert_matrix. Non-trivial = fit with n >= 3 and non-constant x and y; predict with >= 2 coefficients; vandermonde of order >= 3; programs with >= 2 steps incl. a fit; distinct by hash of the case term");
+}
+
+// ---------------------------------------------------------------------------------------------
+// failure-search oracle: the property's statement against the implementation only.  Reference arithmetic: double-double.
+#[derive(Clone, Copy, Debug)]
+struct DD(f64, f64);
+fn two_sum(a: f64, b: f64) -> (f64, f64) { let s = a + b; let bb = s - a; (s, (a - (s - bb)) + (b - bb)) }
+fn quick_two_sum(a: f64, b: f64) -> (f64, f64) { let s = a + b; (s, b - (s - a)) }
+fn split(a: f64) -> (f64, f64) { let t = 134217729.0 * a; let hi = t - (t - a); (hi, a - hi) }
+fn two_prod(a: f64, b: f64) -> (f64, f64) { let p = a * b; let (ah, al) = split(a); let (bh, bl) = split(b); (p, ((ah * bh - p) + ah * bl + al * bh) + al * bl) }
+impl DD {
+    fn of(x: f64) -> DD { DD(x, 0.0) }
+    fn add(self, o: DD) -> DD { let (s, e) = two_sum(self.0, o.0); let (s, e) = quick_two_sum(s, e + self.1 + o.1); DD(s, e) }
+    fn neg(self) -> DD { DD(-self.0, -self.1) }
+    fn sub(self, o: DD) -> DD { self.add(o.neg()) }
+    fn mul(self, o: DD) -> DD { let (p, e) = two_prod(self.0, o.0); let (s, e) = quick_two_sum(p, e + self.0 * o.1 + self.1 * o.0); DD(s, e) }
+    fn div(self, o: DD) -> DD {
+        let q1 = self.0 / o.0; let r = self.sub(o.mul(DD::of(q1)));
+        let q2 = r.0 / o.0; let r = r.sub(o.mul(DD::of(q2)));
+        let q3 = r.0 / o.0;
+        DD::of(q1).add(DD::of(q2)).add(DD::of(q3))
+    }
+    fn abs(self) -> f64 { (self.0 + self.1).abs() }
+    fn val(self) -> f64 { self.0 + self.1 }
+}
+fn dd_pow(x: f64, j: usize) -> DD { let mut p = DD::of(1.0); for _ in 0..j { p = p.mul(DD::of(x)); } p }
+fn dd_poly(c: &[DD], x: f64) -> DD { let mut s = DD::of(0.0); for (j, cj) in c.iter().enumerate() { s = s.add(cj.mul(dd_pow(x, j))); } s }
+/// Gauss-Jordan with partial pivoting in double-double: the inverse of the k x k matrix g, None when a pivot vanishes
+fn dd_inverse(g: &[DD], k: usize) -> Option<Vec<DD>> {
+    let mut a: Vec<DD> = g.to_vec();
+    let mut b: Vec<DD> = (0..k * k).map(|i| if i / k == i % k { DD::of(1.0) } else { DD::of(0.0) }).collect();
+    for c in 0..k {
+        let mut p = c; for i in c + 1..k { if a[i * k + c].abs() > a[p * k + c].abs() { p = i; } }
+        if a[p * k + c].abs() == 0.0 || !a[p * k + c].abs().is_finite() { return None; }
+        if p != c { for j in 0..k { a.swap(p * k + j, c * k + j); b.swap(p * k + j, c * k + j); } }
+        let d = a[c * k + c];
+        for j in 0..k { a[c * k + j] = a[c * k + j].div(d); b[c * k + j] = b[c * k + j].div(d); }
+        for i in 0..k { if i != c { let f = a[i * k + c]; if f.abs() != 0.0 { for j in 0..k { a[i * k + j] = a[i * k + j].sub(f.mul(a[c * k + j])); b[i * k + j] = b[i * k + j].sub(f.mul(b[c * k + j])); } } } }
+    }
+    Some(b)
+}
+fn inf_norm(m: &[DD], k: usize) -> f64 { (0..k).map(|i| (0..k).map(|j| m[i * k + j].abs()).sum::<f64>()).fold(0.0, f64::max) }
+fn dd_rss(c: &[DD], x: &[f64], y: &[f64]) -> DD { let mut s = DD::of(0.0); for (xi, yi) in x.iter().zip(y) { let r = DD::of(*yi).sub(dd_poly(c, *xi)); s = s.add(r.mul(r)); } s }
+
+struct Reference { cref: Vec<DD>, tol_c: f64, gnorm: f64, kappa: f64 }
+/// the least-squares solution in double-double, and the coefficient tolerance the conditioning of V^T V grants:
+/// (32 k^2 + 4 n) eps cond(G) ||G^-1|| ||V^T y||  (explicit inverse, then a product; G and V^T y are sums of n rounded terms),
+/// with ||G|| and ||V^T y|| taken over the sums of absolute values of the terms.
+/// None when the problem is too ill-conditioned for any claim (tolerance factor above 1e-3) or singular.
+fn reference(k: usize, x: &[f64], y: &[f64]) -> Option<Reference> {
+    let n = x.len();
+    let mut g = vec![DD::of(0.0); k * k]; let mut b = vec![DD::of(0.0); k];
+    // the same sums over absolute values: rounding errors of a sum are relative to the sum of magnitudes (cancellation)
+    let mut gabs = vec![DD::of(0.0); k * k]; let mut babs = vec![0.0f64; k];
+    for i in 0..n { let pw: Vec<DD> = (0..2 * k).map(|j| dd_pow(x[i], j)).collect();
+        for j in 0..k { b[j] = b[j].add(pw[j].mul(DD::of(y[i]))); babs[j] += pw[j].abs() * y[i].abs();
+            for l in 0..k { g[j * k + l] = g[j * k + l].add(pw[j + l]); gabs[j * k + l] = gabs[j * k + l].add(DD::of(pw[j + l].abs())); } } }
+    let gi = dd_inverse(&g, k)?;
+    let (gn, gin) = (inf_norm(&gabs, k).max(inf_norm(&g, k)), inf_norm(&gi, k));
+    let kappa = gn * gin;
+    let factor = (32.0 * (k * k) as f64 + 4.0 * n as f64) * f64::EPSILON * kappa;
+    if !(factor < 1e-3) { return None; }
+    let cref: Vec<DD> = (0..k).map(|j| { let mut s = DD::of(0.0); for l in 0..k { s = s.add(gi[j * k + l].mul(b[l])); } s }).collect();
+    let bn = babs.iter().cloned().fold(0.0, f64::max);
+    Some(Reference { cref, tol_c: factor * gin * bn + 1e-300, gnorm: gn, kappa })
+}
+
+fn desc(k: usize, x: &[f64], y: &[f64]) -> String { format!("degree={} x={} y={}", k as i64 - 1, json_floats(x), json_floats(y)) }
+
+pub fn oracle(tier: &str, seed: u64) -> (u64, Vec<Finding>) {
+    let mut r = Rng::new(seed ^ 0xC14);
+    let mut out: Vec<Finding> = vec![]; let mut tried = 0u64;
+    let iters = if tier == "thorough" { 60000 } else { 4000 };
+    for it in 0..iters {
+        if out.len() > 40 { break; }
+        // ---- fit on data inside the property's quantifier
+        let k = 1 + (it % 7) as usize;
+        let big = it % 97 == 0;
+        let n = if it % 5 == 0 { k + r.below(3) as usize } else if big { 200 + r.below(1801) as usize } else { k + r.below(60) as usize };
+        let fam = r.below(5) as usize;
+        let (x, fname) = abscissae(&mut r, fam, n, k);
+        let integer = fam >= 3 && r.coin(0.5);
+        let (y, c0, scale) = responses(&mut r, &x, k, integer);
+        let input = desc(k, &x, &y);
+        crumb(&input);
+        let got = catch(|| { let mut p = PolynomialRegressor::new(k - 1); p.fit(&x, &y); p.coef.clone() });
+        tried += 1;
+        let mut distinct: Vec<u64> = x.iter().map(|v| (v + 0.0).to_bits()).collect(); distinct.sort(); distinct.dedup();
+        if distinct.len() >= k {
+            if let Some(rf) = reference(k, &x, &y) {
+                match &got {
+                    Err(e) => out.push(Finding { class: "fit:valid-input-panics".into(), what: format!("fit panicked on {} points with {} distinct abscissae ({} family, cond(V^T V) ~ {:e}): {}", n, distinct.len(), fname, rf.kappa, e), input: input.clone() }),
+                    Ok(c) if c.len() != k => out.push(Finding { class: "fit:wrong-coefficient-count".into(), what: format!("fit returned {} coefficients for degree {}", c.len(), k - 1), input: input.clone() }),
+                    Ok(c) => {
+                        let cd: Vec<DD> = c.iter().map(|v| DD::of(*v)).collect();
+                        // (a) coefficients against the double-double least-squares solution
+                        let err = (0..k).map(|j| cd[j].sub(rf.cref[j]).abs()).fold(0.0, f64::max);
+                        if !(err <= rf.tol_c) {
+                            out.push(Finding { class: "fit:coefficients-not-least-squares".into(), what: format!("fit returned {:?}; the least-squares coefficients are {:?} (max deviation {:e}, tolerance from cond(V^T V)={:e} is {:e})", c, rf.cref.iter().map(|v| v.val()).collect::<Vec<_>>(), err, rf.kappa, rf.tol_c), input: input.clone() });
+                        }
+                        // (b) the residual is orthogonal to every power of x up to the degree
+                        let res: Vec<DD> = x.iter().zip(&y).map(|(xi, yi)| DD::of(*yi).sub(dd_poly(&cd, *xi))).collect();
+                        let tol_o = rf.gnorm * rf.tol_c * 1.0001 + 1e-300;
+                        for j in 0..k {
+                            let mut s = DD::of(0.0); for (xi, ri) in x.iter().zip(&res) { s = s.add(dd_pow(*xi, j).mul(*ri)); }
+                            if !(s.abs() <= tol_o) { out.push(Finding { class: "fit:residual-not-orthogonal".into(), what: format!("sum_i x_i^{} r_i = {:e} for the fitted coefficients {:?} (tolerance {:e})", j, s.val(), c, tol_o), input: input.clone() }); break; }
+                        }
+                        // (c) no perturbation of a coefficient lowers the residual sum of squares
+                        let rss0 = dd_rss(&cd, &x, &y);
+                        'pert: for j in 0..k { for sgn in [-1.0, 1.0] {
+                            let h = sgn * 1e-3 * (1.0 + c[j].abs());
+                            let mut c2 = cd.clone(); c2[j] = c2[j].add(DD::of(h));
+                            let d = dd_rss(&c2, &x, &y).sub(rss0).val();
+                            if !(d >= -2.0 * h.abs() * tol_o - 1e-28 * rss0.abs()) { out.push(Finding { class: "fit:perturbation-lowers-rss".into(), what: format!("rss(c + {:e} e_{}) - rss(c) = {:e} < 0 for the fitted c = {:?}", h, j, d, c), input: input.clone() }); break 'pert; }
+                        }}
+                        // (d) exact-integer data generated by a polynomial of that degree are reproduced
+                        if integer && scale == 0.0 {
+                            let e0 = (0..k).map(|j| (c[j] - c0[j]).abs()).fold(0.0, f64::max);
+                            if !(e0 <= rf.tol_c) { out.push(Finding { class: "fit:polynomial-not-reproduced".into(), what: format!("data generated exactly by {:?} were fitted as {:?} (deviation {:e}, tolerance {:e})", c0, c, e0, rf.tol_c), input: input.clone() }); }
+                        }
+                        // (g) a refit on the same regressor equals a fit on a fresh one (no dependence on history)
+                        if it % 4 == 0 {
+                            let (x2, _) = abscissae(&mut r, fam + 1, n, k); let (y2, _, _) = responses(&mut r, &x2, k, false);
+                            crumb(&format!("fit({}) then refit {}", desc(k, &x2, &y2), input));
+                            let again = catch(|| { let mut p = PolynomialRegressor::new(k - 1); p.fit(&x2, &y2); p.fit(&x, &y); p.coef.clone() });
+                            tried += 1;
+                            let same = match &again { Ok(a) => a.len() == c.len() && a.iter().zip(c).all(|(u, v)| u.to_bits() == v.to_bits()), Err(_) => false };
+                            if !same { out.push(Finding { class: "fit:history-dependent".into(), what: format!("refitting after an earlier fit gave {:?}, a fresh regressor gives {:?}", again, c), input: input.clone() }); }
+                        }
+                    }
+                }
+            }
+        }
+        // ---- malformed: different lengths must panic
+        if it % 6 == 0 {
+            let m = if r.coin(0.5) { n + 1 + r.below(3) as usize } else { n.saturating_sub(1 + r.below(2) as usize) };
+            if m != n {
+                let y2: Vec<f64> = (0..m).map(|_| r.uniform(-1.0, 1.0)).collect();
+                let inp = desc(k, &x, &y2); crumb(&inp);
+                let g = catch(|| { let mut p = PolynomialRegressor::new(k - 1); p.fit(&x, &y2); p.coef.clone() });
+                tried += 1;
+                if let Ok(c) = g { out.push(Finding { class: "fit:length-mismatch-accepted".into(), what: format!("fit accepted {} abscissae with {} responses and returned {:?}", n, m, c), input: inp }); }
+            }
+        }
+        // ---- predict evaluates c0 + c1 x + ... + cd x^d at each point
+        {
+            let kk = r.below(9) as usize; let m = r.below(6) as usize;
+            let coef: Vec<f64> = (0..kk).map(|_| if r.coin(0.4) { r.small_int(6) } else { r.uniform(-3.0, 3.0) }).collect();
+            let pts: Vec<f64> = (0..m).map(|_| if r.coin(0.3) { r.range(-8, 8) as f64 / 4.0 } else { r.uniform(-2.0, 2.0) }).collect();
+            let inp = format!("coef={} predict at {}", json_floats(&coef), json_floats(&pts)); crumb(&inp);
+            let g = catch(|| { let mut p = PolynomialRegressor::new(0); p.coef = coef.clone(); p.predict(&pts) });
+            tried += 1;
+            match g {
+                Err(e) => out.push(Finding { class: "predict:panics".into(), what: format!("predict panicked: {}", e), input: inp }),
+                Ok(v) if v.len() != m => out.push(Finding { class: "predict:wrong-length".into(), what: format!("predict returned {} values for {} points", v.len(), m), input: inp }),
+                Ok(v) => for (i, p) in pts.iter().enumerate() {
+                    let cd: Vec<DD> = coef.iter().map(|c| DD::of(*c)).collect();
+                    let want = dd_poly(&cd, *p);
+                    let mag: f64 = coef.iter().enumerate().map(|(j, c)| c.abs() * p.abs().powi(j as i32)).sum();
+                    if !((DD::of(v[i]).sub(want)).abs() <= (2 * kk + 2) as f64 * f64::EPSILON * mag) {
+                        out.push(Finding { class: "predict:not-the-polynomial".into(), what: format!("predict gave {:e} at x={:e}; c0 + c1 x + ... = {:e}", v[i], p, want.val()), input: inp.clone() }); break;
+                    }
+                }
+            }
+        }
+        // ---- a new regressor predicts zero everywhere (all coefficients zero) and has degree+1 coefficients
+        if it % 50 == 0 {
+            let deg = r.below(7) as usize; let pts = uniform_x(&mut r, 4);
+            crumb(&format!("new({}).predict({})", deg, json_floats(&pts)));
+            let g = catch(|| { let p = PolynomialRegressor::new(deg); (p.coef.len(), p.predict(&pts)) });
+            tried += 1;
+            match g { Ok((l, v)) if l == deg + 1 && v.iter().all(|z| *z == 0.0) && v.len() == 4 => {}
+                      other => out.push(Finding { class: "new:not-the-zero-polynomial".into(), what: format!("new({}) gave {:?}", deg, other), input: format!("deg={}", deg) }) }
+        }
+    }
+    (tried, out)
+}
